@@ -11,6 +11,7 @@ import (
 	"fmt"
 	"go/ast"
 	"go/token"
+	"sort"
 	"strings"
 )
 
@@ -83,6 +84,223 @@ func skipsAPI(fd *ast.FuncDecl) bool {
 	return false
 }
 
+// ---------------------------------------------------------------------------------------------
+// lock facts: per method, every access to a field of the receiver and every call of a walk method
+// (Modify*/Verify*/Reset* of a child, Add/Empty/Errors/Reset of a MultiError), each with the
+// receiver's mutexes held at that point and their mode. Held = locked by `recv.<mu>.Lock()` /
+// `RLock()` earlier in the same or an enclosing block and not yet released by an explicit
+// `Unlock()`/`RUnlock()` statement (a deferred unlock releases at return). Names of local
+// variables, helper expressions and statement order are not part of the facts.
+
+type lockAcc struct {
+	what  string // "f:<field>" or "c:<method called>"
+	write bool
+	held  []string // "<mutex>:W" / "<mutex>:R", sorted
+}
+
+var walkCalls = map[string]bool{"ModifyRequest": true, "ModifyResponse": true, "VerifyRequests": true, "VerifyResponses": true,
+	"ResetRequestVerifications": true, "ResetResponseVerifications": true, "Add": true, "Empty": true, "Errors": true, "Reset": true}
+
+type lockScan struct {
+	recv  string
+	out   []lockAcc
+	seen  map[string]bool
+	file  *ast.File // helpers: methods of the same receiver type called on the receiver are scanned in place
+	typ   string
+	depth int
+}
+
+func (ls *lockScan) emit(what string, write bool, held map[string]string) {
+	var h []string
+	for m, mode := range held {
+		h = append(h, m+":"+mode)
+	}
+	sort.Strings(h)
+	k := fmt.Sprint(what, write, h)
+	if ls.seen[k] {
+		return
+	}
+	ls.seen[k] = true
+	ls.out = append(ls.out, lockAcc{what, write, h})
+}
+
+// lockCall recognises recv.<mu>.Lock() etc.
+func (ls *lockScan) lockCall(e ast.Expr) (mu, op string, ok bool) {
+	c, isCall := e.(*ast.CallExpr)
+	if !isCall {
+		return
+	}
+	sel, isSel := c.Fun.(*ast.SelectorExpr)
+	if !isSel {
+		return
+	}
+	switch sel.Sel.Name {
+	case "Lock", "RLock", "Unlock", "RUnlock":
+	default:
+		return
+	}
+	in, isSel := sel.X.(*ast.SelectorExpr)
+	if !isSel {
+		return
+	}
+	if id, isID := in.X.(*ast.Ident); !isID || id.Name != ls.recv {
+		return
+	}
+	return in.Sel.Name, sel.Sel.Name, true
+}
+
+// exprs records the accesses inside an expression or simple statement (no lock statements inside).
+func (ls *lockScan) exprs(n ast.Node, held map[string]string) {
+	if n == nil {
+		return
+	}
+	writes := map[*ast.SelectorExpr]bool{}
+	ast.Inspect(n, func(x ast.Node) bool {
+		switch st := x.(type) {
+		case *ast.AssignStmt:
+			for _, l := range st.Lhs {
+				if ix, ok := l.(*ast.IndexExpr); ok {
+					l = ix.X
+				}
+				if sel, ok := l.(*ast.SelectorExpr); ok {
+					writes[sel] = true
+				}
+			}
+		case *ast.IncDecStmt:
+			if sel, ok := st.X.(*ast.SelectorExpr); ok {
+				writes[sel] = true
+			}
+		}
+		return true
+	})
+	ast.Inspect(n, func(x ast.Node) bool {
+		switch e := x.(type) {
+		case *ast.FuncLit:
+			return false
+		case *ast.CallExpr:
+			if _, _, isLock := ls.lockCall(e); isLock {
+				return false
+			}
+			if sel, ok := e.Fun.(*ast.SelectorExpr); ok {
+				if id, isID := sel.X.(*ast.Ident); isID && id.Name == ls.recv && ls.file != nil && ls.depth < 3 {
+					// a helper method of the receiver: what it does happens with the current mutexes held
+					if h := funcDecl(ls.file, ls.typ, sel.Sel.Name); h != nil && h.Body != nil && len(h.Recv.List[0].Names) == 1 {
+						sub := &lockScan{recv: h.Recv.List[0].Names[0].Name, seen: ls.seen, file: ls.file, typ: ls.typ, depth: ls.depth + 1, out: ls.out}
+						sub.block(h.Body.List, copyHeld(held))
+						ls.out = sub.out
+						for _, a := range e.Args {
+							ls.exprs(a, held)
+						}
+						return false
+					}
+				}
+				if walkCalls[sel.Sel.Name] {
+					ls.emit("c:"+sel.Sel.Name, false, held)
+				}
+			}
+		case *ast.SelectorExpr:
+			if id, ok := e.X.(*ast.Ident); ok && id.Name == ls.recv {
+				ls.emit("f:"+e.Sel.Name, writes[e], held)
+			}
+		}
+		return true
+	})
+}
+
+func copyHeld(h map[string]string) map[string]string {
+	c := map[string]string{}
+	for k, v := range h {
+		c[k] = v
+	}
+	return c
+}
+
+func (ls *lockScan) block(list []ast.Stmt, held map[string]string) {
+	for _, st := range list {
+		ls.stmt(st, held)
+	}
+}
+
+func (ls *lockScan) stmt(st ast.Stmt, held map[string]string) {
+	switch s := st.(type) {
+	case *ast.ExprStmt:
+		if mu, op, ok := ls.lockCall(s.X); ok {
+			switch op {
+			case "Lock":
+				held[mu] = "W"
+			case "RLock":
+				held[mu] = "R"
+			default:
+				delete(held, mu)
+			}
+			return
+		}
+		ls.exprs(s, held)
+	case *ast.DeferStmt:
+		if _, _, ok := ls.lockCall(s.Call); ok {
+			return // released at return: held for the rest of the method
+		}
+		ls.exprs(s, held)
+	case *ast.BlockStmt:
+		ls.block(s.List, copyHeld(held))
+	case *ast.IfStmt:
+		ls.exprs(s.Init, held)
+		ls.exprs(s.Cond, held)
+		ls.block(s.Body.List, copyHeld(held))
+		if s.Else != nil {
+			ls.stmt(s.Else, copyHeld(held))
+		}
+	case *ast.ForStmt:
+		ls.exprs(s.Init, held)
+		ls.exprs(s.Cond, held)
+		ls.exprs(s.Post, held)
+		ls.block(s.Body.List, copyHeld(held))
+	case *ast.RangeStmt:
+		ls.exprs(s.X, held)
+		ls.block(s.Body.List, copyHeld(held))
+	case *ast.SwitchStmt:
+		ls.exprs(s.Init, held)
+		ls.exprs(s.Tag, held)
+		for _, c := range s.Body.List {
+			cc := c.(*ast.CaseClause)
+			for _, e := range cc.List {
+				ls.exprs(e, held)
+			}
+			ls.block(cc.Body, copyHeld(held))
+		}
+	case *ast.TypeSwitchStmt:
+		ls.exprs(s.Init, held)
+		ls.exprs(s.Assign, held)
+		for _, c := range s.Body.List {
+			ls.block(c.(*ast.CaseClause).Body, copyHeld(held))
+		}
+	default:
+		ls.exprs(st, held)
+	}
+}
+
+func lockAccesses(f *ast.File, typ string, fd *ast.FuncDecl) []lockAcc {
+	if fd == nil || fd.Body == nil || fd.Recv == nil || len(fd.Recv.List) != 1 || len(fd.Recv.List[0].Names) != 1 {
+		return nil
+	}
+	ls := &lockScan{recv: fd.Recv.List[0].Names[0].Name, seen: map[string]bool{}, file: f, typ: typ}
+	ls.block(fd.Body.List, map[string]string{})
+	return ls.out
+}
+
+func leanAccs(accs []lockAcc) string {
+	var xs []string
+	for _, a := range accs {
+		var hs []string
+		for _, h := range a.held {
+			p := strings.SplitN(h, ":", 2)
+			hs = append(hs, fmt.Sprintf("(%s, %s)", leanStr(p[0]), leanBool(p[1] == "W")))
+		}
+		xs = append(xs, fmt.Sprintf("(%s, %s, %s, [%s])", leanStr(a.what[2:]), leanBool(strings.HasPrefix(a.what, "c:")), leanBool(a.write), strings.Join(hs, ", ")))
+	}
+	return "[" + strings.Join(xs, ", ") + "]"
+}
+
 func leanBool(b bool) string {
 	if b {
 		return "true"
@@ -100,19 +318,53 @@ func extractC13() {
 
 	mf := parse("multierror.go")
 	add := funcDecl(mf, "MultiError", "Add")
+	// Add unwraps: inside `if x, ok := err.(*MultiError); ok { … }` the elements of x (x.Errors() or x.errs,
+	// directly or through a local) are appended one by one (append with an ellipsis) and the body
+	// returns before the plain append of err itself.
 	flattens := false
 	if add != nil {
-		asserts := false
 		ast.Inspect(add.Body, func(n ast.Node) bool {
-			if ta, ok := n.(*ast.TypeAssertExpr); ok && ta.Type != nil && src(ta.Type) == "*MultiError" {
-				asserts = true
+			is, ok := n.(*ast.IfStmt)
+			if !ok || is.Init == nil {
+				return true
 			}
-			if c, ok := n.(*ast.CallExpr); ok && src(c.Fun) == "append" && c.Ellipsis.IsValid() && len(c.Args) == 2 && strings.HasSuffix(src(c.Args[1]), ".Errors()") {
+			as, ok := is.Init.(*ast.AssignStmt)
+			if !ok || len(as.Lhs) != 2 || len(as.Rhs) != 1 {
+				return true
+			}
+			ta, ok := as.Rhs[0].(*ast.TypeAssertExpr)
+			if !ok || ta.Type == nil || src(ta.Type) != "*MultiError" {
+				return true
+			}
+			x := src(as.Lhs[0])
+			spread, elems, returns := false, false, false
+			ast.Inspect(is.Body, func(m ast.Node) bool {
+				switch e := m.(type) {
+				case *ast.CallExpr:
+					if src(e.Fun) == "append" && e.Ellipsis.IsValid() {
+						spread = true
+					}
+					if src(e.Fun) == x+".Errors" {
+						elems = true
+					}
+				case *ast.SelectorExpr:
+					if src(e) == x+".errs" {
+						elems = true
+					}
+				case *ast.RangeStmt:
+					if strings.HasPrefix(src(e.X), x+".") {
+						spread = true
+					}
+				case *ast.ReturnStmt:
+					returns = true
+				}
+				return true
+			})
+			if spread && elems && returns {
 				flattens = true
 			}
 			return true
 		})
-		flattens = flattens && asserts
 	}
 	g.def("multiErrorAddFlattens", "Bool", leanBool(flattens))
 
@@ -133,6 +385,42 @@ func extractC13() {
 		locked = append(locked, fmt.Sprintf("(%s, %s)", leanStr(fd.Name.Name), leanBool(l)))
 	}
 	g.def("multiErrorLocked", "List (String × Bool)", "["+strings.Join(locked, ", ")+"]")
+
+	// lock facts
+	six := []string{"ModifyRequest", "ModifyResponse", "VerifyRequests", "VerifyResponses", "ResetRequestVerifications", "ResetResponseVerifications"}
+	reqs := []string{"ModifyRequest", "VerifyRequests", "ResetRequestVerifications"}
+	ress := []string{"ModifyResponse", "VerifyResponses", "ResetResponseVerifications"}
+	var lf []string
+	for _, t := range []struct {
+		key, file, typ string
+		methods        []string
+	}{
+		{"martianhttp.Modifier", "martianhttp/martianhttp.go", "Modifier", six},
+		{"fifo.Group", "fifo/fifo_group.go", "Group", six},
+		{"filter.Filter", "filter/filter.go", "Filter", six},
+		{"priority.Group", "priority/priority_group.go", "Group", []string{"ModifyRequest", "ModifyResponse"}},
+		{"status.Verifier", "status/status_verifier.go", "Verifier", ress},
+		{"header.Verifier", "header/header_verifier.go", "verifier", six},
+		{"method.Verifier", "method/method_verifier.go", "verifier", reqs},
+		{"url.Verifier", "martianurl/url_verifier.go", "Verifier", reqs},
+		{"querystring.Verifier", "querystring/query_string_verifier.go", "verifier", reqs},
+		{"failure.Verifier", "failure/failure_verifier.go", "verifier", reqs},
+		{"pingback.Verifier", "pingback/pingback_verifier.go", "Verifier", reqs},
+	} {
+		f := parse(t.file)
+		for _, m := range t.methods {
+			lf = append(lf, fmt.Sprintf("(%s, %s)", leanStr(t.key+"."+m), leanAccs(lockAccesses(f, t.typ, funcDecl(f, t.typ, m)))))
+		}
+	}
+	var mlf []string
+	for _, d := range mf.Decls {
+		if fd, ok := d.(*ast.FuncDecl); ok && fd.Recv != nil && funcDecl(mf, "MultiError", fd.Name.Name) == fd {
+			mlf = append(mlf, fmt.Sprintf("(%s, %s)", leanStr(fd.Name.Name), leanAccs(lockAccesses(mf, "MultiError", fd))))
+		}
+	}
+	// entry = (name, isCall, isWrite, [(mutex, heldForWriting)])
+	g.def("lockFacts", "List (String × List (String × Bool × Bool × List (String × Bool)))", "[\n  "+strings.Join(lf, ",\n  ")+"]")
+	g.def("multiErrorLockFacts", "List (String × List (String × Bool × Bool × List (String × Bool)))", "[\n  "+strings.Join(mlf, ",\n  ")+"]")
 
 	var api []string
 	for _, v := range [][4]string{
